@@ -19,6 +19,14 @@ def check (_lineNo : Nat) (line : String) : Verdict :=
     if alive != "1" then .oracle s!"agent died on duplicated / late / foreign responses (script {script})"
     else if known != "1" then .oracle s!"after duplicated / late / foreign responses (script {script}) a valid request on the association was not processed normally: its receive loop was wedged and the peer dropped"
     else .ok
+  | ["bounce", "=>", alive, answered] =>
+    if alive != "1" then .oracle "agent died after a response of its own bounced (peer socket closed)"
+    else if answered != "1" then .oracle "after one of the agent's responses bounced (ICMP port unreachable: the peer's socket was closed for a moment) the peer, back on the same address, is never answered again: the association's receive loop is gone"
+    else .ok
+  | ["choosemod", "=>", alive, answered] =>
+    if alive != "1" then .oracle "agent died on the history: establishment, modification creating a PDR with a CHOOSE F-TEID, deletion"
+    else if answered != "1" then .oracle "after the history establishment / modification creating a PDR with a CHOOSE F-TEID / deletion, an establishment with a CHOOSE F-TEID on another association is never answered (the receive loop hangs)"
+    else .ok
   | ["other", ok] => if ok = "1" then .ok else .oracle "a valid Association Setup Request on another association was not processed normally"
   | "raw" :: _i :: "=>" :: alive :: hb :: crash =>
     if alive != "1" then .oracle s!"agent died on the raw datagram stream: {" ".intercalate crash}"
